@@ -225,7 +225,7 @@ Qed.
 Print Assumptions c12_composed_total_partial.
 
 (* ------------------------------------------------------------------ sites added since the last baseline *)
-(* Model/SitesBaseline.v was re-recorded on /repo e6f83f8; every row that grew was read, and the added site is
+(* Model/SitesBaseline.v was re-recorded on /repo 1b54dc3; every row that grew was read, and the added site is
    restated with its guard in Model/ReviewedSites.v (text pinned by c12_modelled_text_unchanged). *)
 Theorem c12_reviewed_names_relative : forall (A : Type) (found : ident A -> bool) module_path i,
   resolve_relative found module_path i <> Panic.
